@@ -271,31 +271,27 @@ Proof.
     apply existsb_exists. exists []. auto.
 Qed.
 
-Lemma truthy_In j t : In t (truthy j) <-> j = Some t /\ t <> [].
+Lemma not_none_In j t : In t (not_none j) <-> j = Some t.
 Proof.
-  destruct j as [[|e r]|]; simpl; split; try tauto.
-  - intros [H N]. inversion H; subst. now apply N.
-  - intros [<-|[]]. split; [reflexivity | discriminate].
-  - intros [H _]. inversion H; subst. now left.
-  - intros [H _]. discriminate.
+  destruct j as [b|]; simpl; split; try tauto.
+  - intros [<-|[]]. reflexivity.
+  - intros H. inversion H. now left.
+  - discriminate.
 Qed.
 
-Theorem intersection_spec dom n c1 c2 : 0 < n -> wf_choices dom n c1 -> wf_choices dom n c2 ->
+Theorem intersection_spec dom n c1 c2 : wf_choices dom n c1 -> wf_choices dom n c2 ->
   exists c, intersection c1 c2 = Ok c /\ wf_choices dom n c /\
     forall v, covered c.(valid) v <-> covered c1.(valid) v /\ covered c2.(valid) v.
 Proof.
-  intros Hn [Hi1 Hg1] [Hi2 Hg2]. unfold intersection. rewrite Hi1, Hi2, Z.eqb_refl. simpl.
+  intros [Hi1 Hg1] [Hi2 Hg2]. unfold intersection. rewrite Hi1, Hi2, Z.eqb_refl. simpl.
   eexists. split; [reflexivity|].
-  set (vs := flat_map (fun v1 => flat_map (fun v2 => truthy (vect_intersection v1 v2)) (valid c2)) (valid c1)).
+  set (vs := flat_map (fun v1 => flat_map (fun v2 => not_none (vect_intersection v1 v2)) (valid c2)) (valid c1)).
   assert (forall t, In t vs <-> exists a b, In a (valid c1) /\ In b (valid c2) /\ vect_intersection a b = Some t) as Hvs.
   { intros t. unfold vs. rewrite in_flat_map. split.
-    - intros [a [Ha H]]. apply in_flat_map in H. destruct H as [b [Hb H]]. apply truthy_In in H.
+    - intros [a [Ha H]]. apply in_flat_map in H. destruct H as [b [Hb H]]. apply not_none_In in H.
       exists a, b. tauto.
     - intros (a & b & Ha & Hb & H). exists a. split; [exact Ha|]. apply in_flat_map. exists b.
-      split; [exact Hb|]. apply truthy_In. split; [exact H|].
-      rewrite Forall_forall in Hg1, Hg2.
-      pose proof (vect_intersection_spec dom n a b (Hg1 a Ha) (proj1 (Hg2 b Hb))) as Hs.
-      rewrite H in Hs. destruct Hs as [_ [Hl _]]. intros ->. simpl in Hl. lia. }
+      split; [exact Hb|]. now apply not_none_In. }
   rewrite Forall_forall in Hg1, Hg2.
   split; [split|].
   - apply index_mk_choices. lia.
@@ -319,7 +315,7 @@ Qed.
 
 (* intersection of two generated objects *)
 Theorem generate_intersection ord1 ord2 pick1 pick2 fuel1 fuel2 dom n S1 S2 c1 c2 :
-  ord_ok ord1 -> ord_ok ord2 -> pick_ok pick1 -> pick_ok pick2 -> NoDup dom -> dom <> [] -> 0 < n ->
+  ord_ok ord1 -> ord_ok ord2 -> pick_ok pick1 -> pick_ok pick2 -> NoDup dom -> dom <> [] ->
   wf_seqs dom n S1 -> wf_seqs dom n S2 ->
   generate ord1 pick1 fuel1 dom n S1 = Ok c1 -> generate ord2 pick2 fuel2 dom n S2 = Ok c2 ->
   exists c, intersection c1 c2 = Ok c /\
@@ -333,28 +329,47 @@ Theorem generate_intersection ord1 ord2 pick1 pick2 fuel1 fuel2 dom n S1 S2 c1 c
     | Err _ => False
     end.
 Proof.
-  intros Ho1 Ho2 Hp1 Hp2 Hnd Hne Hn Hw1 Hw2 G1 G2.
+  intros Ho1 Ho2 Hp1 Hp2 Hnd Hne Hw1 Hw2 G1 G2.
   destruct (generate_spec _ _ _ _ _ _ _ Ho1 Hp1 Hnd Hne Hw1 G1) as (Hc1 & _ & Hcov1).
   destruct (generate_spec _ _ _ _ _ _ _ Ho2 Hp2 Hnd Hne Hw2 G2) as (Hc2 & _ & Hcov2).
-  destruct (intersection_spec dom n c1 c2 Hn Hc1 Hc2) as [c [Hi [Hwc Hcov]]].
+  destruct (intersection_spec dom n c1 c2 Hc1 Hc2) as [c [Hi [Hwc Hcov]]].
   exists c. split; [exact Hi|].
   assert (forall v, covered (valid c) v <-> vec_in dom n v /\ accepted S1 v /\ accepted S2 v) as Hc.
   { intros v. rewrite Hcov, Hcov1, Hcov2. tauto. }
+  assert (n = 0 -> covered (valid c) []) as Hn0.
+  { intros ->. apply Hc. split; [split; [reflexivity | constructor]|].
+    rewrite (wf_seqs_n0 _ _ Hw1), (wf_seqs_n0 _ _ Hw2). split; intros s []. }
   split; [|split; [|split]].
   - intros v Hl. rewrite (is_valid_covered n c v (good_box_length _ _ _ (proj2 Hwc)) Hl). apply Hc.
   - intros v. rewrite all_covered. apply Hc.
-  - rewrite (infinite_covered dom n c Hwc Hn). split.
-    + intros H v Hv Ha. apply (H v), Hc. tauto.
-    + intros H v Hv. apply Hc in Hv. apply (H v); tauto.
-  - pose proof (first_covered dom n c Hwc (or_introl Hn)) as H.
+  - destruct (Nat.eq_dec n 0) as [E|E].
+    + assert (infinite c = false) as -> by (apply (infinite_n0 dom); rewrite <- E; exact Hwc).
+      split; [discriminate|]. intros H. exfalso. apply Hc in Hn0; [|exact E].
+      apply (H [] (proj1 Hn0) (proj2 Hn0)).
+    + rewrite (infinite_covered dom n c Hwc) by lia. split.
+      * intros H v Hv Ha. apply (H v), Hc. tauto.
+      * intros H v Hv. apply Hc in Hv. apply (H v); tauto.
+  - assert (0 < n \/ valid c <> []) as Hn.
+    { destruct (Nat.eq_dec n 0) as [E|E]; [right | left; lia].
+      destruct (Hn0 E) as [b [Hb _]]. intros E'. rewrite E' in Hb. destruct Hb. }
+    pose proof (first_covered dom n c Hwc Hn) as H.
     destruct (first c) as [[v|]|e]; auto. now apply Hc.
 Qed.
 
-(* n = 0: the real code (and the faithful model) drops the empty vector -- `if j` on an empty tuple *)
-Theorem intersection_n0_refuted :
+(* n = 0 explicitly: the intersection of two length-0 objects accepts the empty vector *)
+Theorem intersection_n0_ok :
   exists c1 c,
     generate ord_id pick_head 5 [0; 1; 2] 0 [] = Ok c1 /\ is_valid c1 [] = true /\
-    intersection c1 c1 = Ok c /\ is_valid c [] = false /\ all c = [] /\ infinite c = false /\
+    intersection c1 c1 = Ok c /\ is_valid c [] = true /\ all c = [[]] /\ infinite c = false /\
+    first c = Ok (Some []).
+Proof. eexists. eexists. vm_compute. repeat split; reflexivity. Qed.
+
+(* regression: with the filter as it was before fix df06735 (`if j`, an empty tuple is falsy) the only
+   vector of dom^0 is dropped *)
+Theorem intersection_truthy_n0_refuted :
+  exists c1 c,
+    generate ord_id pick_head 5 [0; 1; 2] 0 [] = Ok c1 /\ is_valid c1 [] = true /\
+    intersection_truthy c1 c1 = Ok c /\ is_valid c [] = false /\ all c = [] /\ infinite c = false /\
     first c = Err IndexError.
 Proof. eexists. eexists. vm_compute. repeat split; reflexivity. Qed.
 
